@@ -361,7 +361,7 @@ func runChain(sh chainShape, table map[byte]refmodel.Behaviour) (obs chainObs, b
 	if strings.Contains(sh.Hooks, "Y") {
 		stray := func(c *rux.Context) { log = append(log, refmodel.Event{Kind: "enter", H: 300}) }
 		target := reqPath
-		// (/fwd's chain is forwarder + main: not longer than the measured chain, see DESIGN note L5)
+		// (/fwd's chain is forwarder + main: not longer than the measured chain, see DESIGN note L2)
 		r.GET("/fwd", stray, func(c *rux.Context) {
 			c.Req.URL.Path = target
 			c.Router().HandleContext(c)
